@@ -258,6 +258,11 @@ def run(ctx):
     # at the end), quoted; unquoted as well for the characters that may appear in an unquoted parameter value
     name, b = tg[0]
     multis0 = sorted(m for (n_, m, l) in reqs if n_ == name and reqs[(n_, m, -1)].count(",") >= 1)
+    if not multis0:
+        # on this tree no marking of the first target yields a request of two or more ranges (non-adjacent missing chunks must
+        # give separate ranges - C10's subject); the boundary family needs one: fall back to whatever the last marking asks for
+        multis0 = sorted(m for (n_, m, l) in reqs if n_ == name)
+        ctx.note("no multi-range request on %s: the boundary-alphabet family runs on a single-range request" % name)
     m0 = multis0[-1]
     bitems = []
     bchars = "'()+_,-./:=? "
